@@ -285,6 +285,6 @@ pub fn def() -> PropertyDef {
             .into(),
         assumptions: vec!["RecoverOnly returning Ok for an invalid proof is by design and is not compared".into()],
         exhaustive: false,
-        subs: vec![key_sub::<F>((3000, 100_000)), key_sub::<R>((300, 5000))],
+        subs: vec![key_sub::<F>((15_000, 200_000)), key_sub::<R>((1200, 10_000))],
     }
 }
